@@ -16,15 +16,22 @@ from . import ser_common as sc
 LEVEL = "proof"
 MANIFEST_ENTRY = {
     "category": "proof",
-    "text": "Lean 4 theorems over a step-level model of save()'s filesystem protocol (staging next to the target, install, discard on failure): for every store, number of writes, pre-state and fault position the target is afterwards unchanged, absent or the complete new object (never partial), a non-raising call leaves the complete object, write-once raises before any effect, no other path changes; and over HISTORIES of saves onto one target with any faults (`saves_history`): the target is always its initial content, absent, or the complete object of a call that returned normally (`raise_never_installs`). Tied to the code on every run by injecting an exception at EVERY primitive write/zip-assembly/install call of the real save() (exhaustive in the fault position for each generated graph, both stores, both modes, six pre-states: absent, foreign file, foreign directory, zero-byte file, empty directory, earlier checkpoint), feeding the recorded primitive trace to the model and comparing outcomes; the property clauses are evaluated on the real filesystem (hashes of siblings, load() of the target). Histories of saves onto one target (theorem saves_history: the target is always the initial content, absent, or the complete object of a call that returned normally) are run on the real code with faults at random primitives and compared prefix by prefix with the model's runCalls.",
-    "note": "Trusted: Lean kernel + standard axioms; os/shutil/zipfile/zarr filesystem semantics (existence, remove, replace, directory listing); faults are exceptions raised at the entry of a primitive (no process kill / power loss / concurrent writers / TOCTOU between exists and open).",
-    "technique": "Lean 4 proof (induction over step lists, all fault positions) + exhaustive fault-injection correspondence",
+    "text": "Lean 4 theorems over (1) a step-level model of save()'s filesystem protocol (Model/SaveFs.lean: staging next to the target, install, discard on failure) and (2) a branch-by-branch model of save()'s FRONT END (Model/SaveFront.lean: compression-level validation, store inference from the path, '.zip' suffix normalisation, the write-once existence check, the directory-extension check and the unknown-store check, in the order of the code). Proved for every store, number of writes, pre-state and fault position: the target is afterwards unchanged, absent or the complete new object, never partial (no_partial, never_partial); a non-raising call leaves the complete object; a call that raises installs nothing (raise_never_installs); no staging path is ever left behind (staged_gone); no other path changes (others_untouched). Proved for every spelling of the arguments: a call whose RESOLVED target exists raises before any effect for EVERY mode string other than 'o', every store (also 'auto', also unknown ones) and every level, and the filesystem after it is the filesystem before it (front_write_once, saveFull_write_once, write_once_fs_unchanged); exactly which calls get past the front end and which path they name (front_ok_iff, targetOf_cases, front_zip_suffix); save('run', store='zip') never alters the path 'run' (saveFull_stem_untouched); one complete call changes at most its resolved target (saveFull_others_untouched, saveFull_no_partial). Proved over HISTORIES of calls with any faults, rejected calls included: onto one target the target is always its initial content, absent, or the complete object of a call that returned normally (saves_history); onto ANY targets a path that is never a target or staging path is untouched (history_others_untouched) and a path that is absent and never a target stays absent — nothing is ever left behind (history_no_leftover). Tied to the code on every run by injecting an exception (Exception, OSError, KeyboardInterrupt, SystemExit in rotation) at EVERY primitive call of the real save() — zarr root/group/attribute/array/chunk-data writes, dill.dumps/torch.save, os.makedirs, ZipFile open/write/close, os.remove/shutil.rmtree/os.replace of the install — hooked at the LIBRARIES (not at quantem-private helpers), exhaustive in the fault position for each generated graph, both stores, both modes, five call styles (exact, extension-less zip, store='auto', pathlib.Path, relative path) and eleven pre-states (absent, earlier checkpoint, file, directory, zero-byte file, empty directory, directory of zero-length placeholder files, symlink to a sibling file, symlink to a sibling directory, dangling symlink); the recorded primitive trace is executed by the model and outcomes are compared, the order of the store writes is compared with traceSave, the model's own step list with the recorded trace shape; a front-end stream compares every argument spelling x pre-state with `front`; histories (different and re-saved objects, both modes, faults at random primitives, calls rejected by validation) are compared prefix by prefix with runCalls. The property's clauses are evaluated on the real filesystem (hashes of every sibling and of link referents BEFORE load(), listing of the sandbox, load() of the target).",
+    "note": "Measured, not proved: that the recorded primitive trace is what save() does (the step list is recorded from the real code on every run and compared with the model's `steps`), the number of files zarr writes per group/array, and os/shutil/zipfile/zarr semantics of the primitives (remove, rmtree, replace onto file / directory / symlink; os.path.lexists/isdir/islink). Trusted: Lean kernel + standard axioms; faults are exceptions raised at the entry of a primitive (no process kill / power loss / concurrent writers / TOCTOU between the existence check and the install). If AutoSerialize._write_ndarray/_write_bytes are renamed or inlined the check keeps counting every write at the zarr level and only stops telling arrays from byte blobs in the write-order comparison (evidence: hook_notes).",
+    "technique": "Lean 4 proof (induction over step lists and histories, all fault positions; case analysis of the front end) + exhaustive fault-injection correspondence at library-level primitives",
 }
-RULE = ("for each generated object graph x store x mode x pre-state the fault position k is enumerated exhaustively over all primitive "
-        "calls of save() (plus the fault-free run and naturally failing saves); one evaluation = one faulted save + observation; "
-        "distinct non-trivial = distinct (store, mode, pre-state, step kind at the fault, outcome class)")
-TRUSTED = ["os / shutil / zipfile / zarr filesystem behaviour", "exceptions injected at primitive entry stand for 'an error at any write'"]
-ASSUMPTIONS = ["no process kill, power loss, concurrent writer or TOCTOU race is modelled"]
+RULE = ("for each generated object graph x store x mode x pre-state x call style the fault position k is enumerated over the primitive "
+        "calls of save() (all of them for mode 'w' onto an absent target, mode 'o' onto an earlier checkpoint / a foreign target of the dir "
+        "store; every second temp-dir position + all later ones for the zip store in mode 'o'; every second + the install phase for mode 'o' "
+        "onto an absent target; the install phase + one more for three further foreign kinds), plus the fault-free run, naturally failing "
+        "saves, histories of 3-5 calls and front-end cases; one evaluation = one save + observation; distinct non-trivial = distinct "
+        "(store, mode, pre-state, call style, step kind at the fault, outcome class) / (history shape) / (front-end branch, mode class, pre-states)")
+TRUSTED = ["os / shutil / zipfile / zarr filesystem behaviour of the primitives (observed on the real filesystem on every run, not modelled below the step level)",
+           "exceptions injected at primitive entry (Exception, OSError, KeyboardInterrupt, SystemExit) stand for 'an error at any write'",
+           "the library-level hook points (zarr Group/Attributes/Array methods, zipfile.ZipFile, os.replace/rename/remove/unlink/rmdir/makedirs/mkdir, "
+           "shutil.rmtree/move, dill.dumps, torch.save) see every primitive save() performs: a write routed around all of them would not be a fault position"]
+ASSUMPTIONS = ["no process kill, power loss, concurrent writer or TOCTOU race is modelled",
+               "a dangling symbolic link at the target counts as an existing target (os.path.lexists), as for O_EXCL creation"]
 EXPLANATION = "see MANIFEST level text"
 
 
@@ -214,6 +221,7 @@ def run_config(ctx, drv, recipe, old_recipe, store, mode, pre, idx, call="exact"
             old_obj.save(tpl_stem, store="dir")
 
     verified = set()
+    obs = {}
 
     def one(fault):
         target = setup_sandbox(base, store, pre, old_obj, template=tpl)
@@ -252,6 +260,7 @@ def run_config(ctx, drv, recipe, old_recipe, store, mode, pre, idx, call="exact"
         listing = sorted(os.listdir(base))
         # hashes BEFORE load(): zarr.group() creates metadata in a foreign directory it is pointed at
         post_hash = tree_hash(target)
+        obs["post_kind"] = c08_front.kind_of(target)
         sib_ok = sib_hash == sibling_hashes(base, more)
         state, detail = observe_target(target, spec_new, spec_old, pre_hash, post_hash, verified)
         extra = [p for p in listing if p not in SIBLINGS + (os.path.basename(target),)
@@ -264,6 +273,7 @@ def run_config(ctx, drv, recipe, old_recipe, store, mode, pre, idx, call="exact"
         return rec.trace, raised, state, detail, sib_ok, extra, (pre_hash, post_hash)
 
     trace, raised, state, detail, sib_ok, extra, hashes = one(None)
+    post_kind0 = obs.get("post_kind")
     steps = to_steps(trace, zip_store)
     n = len(trace)
     fs0 = [["sib", ["foreign", 9]]] + ([["T", pre_content]] if pre_content else [])
@@ -321,6 +331,14 @@ def run_config(ctx, drv, recipe, old_recipe, store, mode, pre, idx, call="exact"
             elif model_w != real_w:
                 ctx.disagree("write-trace", case, model_w, real_w, note="sequence of store writes of save()")
             ctx.dist["write_trace_compared"] += 1
+        # ---- `_install()` against the KIND of entry it finds (Model/SaveInstall.lean), fault-free run
+        if k is None and not (mode == "w" and pre != "absent"):
+            staged_kind = "file" if zip_store else "dir:nonempty"
+            pre_kind = c08_front.PRE_KIND.get(pre, staged_kind)      # "earlier": an object of the same store kind
+            mi = drv.ask({"op": "kinds", "fn": "install", "a": staged_kind, "b": pre_kind}).get("ok")
+            ii = {"raises": raised_k} if raised_k else {"a": ("left-behind" if extra_k else None), "b": post_kind0}
+            if mi != ii:
+                ctx.disagree("install-kinds", case, mi, ii, note=f"_install() of a staged {staged_kind} onto {pre_kind}")
         # ---- model's own step list has the same shape as the recorded trace (fault-free run only)
         if k is None and not (mode == "w" and pre != "absent"):
             nt = steps.count("tmpWrite")
@@ -602,7 +620,7 @@ def run(ctx):
     from qv.driver import Driver
     drv = Driver("C08")
     try:
-        n = ctx.n(6, 60)
+        n = ctx.n(6, 45)
         idx = 0
         for i in range(n):
             rng = ctx.rng.fork(i)
@@ -640,9 +658,14 @@ def run(ctx):
                     run_natural_failure(ctx, drv, recipe, store, rng.choice(["absent", "earlier"]), idx)
                     idx += 1
         history_stream(ctx, drv, ctx.n(10, 100))
-        c08_front.front_stream(ctx, drv, ctx.n(120, 1500))
+        c08_front.primitives_stream(ctx, drv)
+        c08_front.front_stream(ctx, drv, ctx.n(120, 1000))
         ctx.exhaustive = False
         ctx.extra["exhaustive_in_fault_position_per_graph"] = True
+        ctx.extra["fault_hooks"] = "library level: zarr.group/open_group, Group.require_group/create_group/create_array/..., Attributes.__setitem__/put, " \
+            "Array.__setitem__/set_*_selection, dill.dumps, torch.save, os.makedirs/mkdir/remove/unlink/rmdir/replace/rename, shutil.rmtree/move, " \
+            "zipfile.ZipFile.__init__/write/writestr/close; quantem-private _write_ndarray/_write_bytes only label array vs bytes"
+        ctx.extra.setdefault("hook_notes", [])
     finally:
         drv.close()
 
